@@ -536,8 +536,11 @@ class FileIndex(Index):
                          == segment.doc_count())):
                     r = reusable[segment]
                     del reusable[segment]
-                    # The reused reader now serves this generation
+                    # The reused reader now serves this generation, with this
+                    # generation's schema (a commit can add or remove fields
+                    # without touching the segment)
                     r._gen = generation
+                    r.schema = schema
                     return r
                 else:
                     return SegmentReader(storage, schema, segment,
